@@ -255,6 +255,9 @@ func (e *Engine) checkQueuePreemption(st *Step, a *world.Alloc, app *world.App, 
 			// value to its offset), subtracted going down to the victim's queue; a priority-fenced queue on the
 			// victim's side makes its whole subtree eligible iff its offset does not exceed the value reached there
 			e.obs("c07.priority_judged_calculus", 1)
+			if rel < -2147483648 || rel > 2147483647 {
+				e.obs("c07.priority_rank_outside_int32", 1)
+			}
 			switch {
 			case blocked != "":
 				e.violate("C07", "victim-behind-priority-fence", "", fmt.Sprintf("victim %s lives below the priority fence %s whose offset is above the relative priority of the ask %s there", v.Key, blocked, a.Key))
@@ -629,7 +632,7 @@ func (e *Engine) scenarioPreemption(g *Gen, r *Rng) {
 			if r.Chance(100) {
 				app = apps[r.Intn(len(apps))]
 			}
-			op := &Op{Kind: OpBound, App: app, Key: g.newKey(app), Node: n, Res: rs, Prio: int32(r.Range(0, 3))}
+			op := &Op{Kind: OpBound, App: app, Key: g.newKey(app), Node: n, Res: rs, Prio: g.shiftPrio(int32(r.Range(0, 3)))}
 			if r.Chance(80) {
 				op.ReqNode = n
 			}
@@ -653,7 +656,7 @@ func (e *Engine) scenarioPreemption(g *Gen, r *Rng) {
 				app = in[r.Intn(len(in))]
 			}
 		}
-		op := &Op{Kind: OpAsk, App: app, Key: g.newKey(app), Res: res.R{"memory": int64(r.Range(1, 3)), "vcore": int64(r.Range(0, 2))}.Pruned(), Prio: int32(r.Range(0, 4)),
+		op := &Op{Kind: OpAsk, App: app, Key: g.newKey(app), Res: res.R{"memory": int64(r.Range(1, 3)), "vcore": int64(r.Range(0, 2))}.Pruned(), Prio: g.shiftPrio(int32(r.Range(0, 4))),
 			AgeSec: int64(r.Range(35, 120)), PreemptOther: r.Chance(900), PreemptSelf: true}
 		if r.Chance(100) {
 			op.ReqNode = nodes[r.Intn(len(nodes))]
@@ -726,7 +729,7 @@ func (e *Engine) scenarioSecondPreemption(g *Gen, r *Rng) {
 			sz = 2
 		}
 		app := []string{v1, v2}[r.Intn(2)]
-		if !e.Do(&Op{Kind: OpBound, App: app, Key: g.newKey(app), Node: node, Res: res.R{"memory": sz, "vcore": sz}, Prio: int32(r.Range(0, 1))}) {
+		if !e.Do(&Op{Kind: OpBound, App: app, Key: g.newKey(app), Node: node, Res: res.R{"memory": sz, "vcore": sz}, Prio: g.shiftPrio(int32(r.Range(0, 1)))}) {
 			return
 		}
 		used += sz
@@ -734,7 +737,7 @@ func (e *Engine) scenarioSecondPreemption(g *Gen, r *Rng) {
 	for i, n := 0, r.Range(2, 3); i < n && !e.stopNow(); i++ {
 		app := []string{a1, a2}[r.Intn(2)]
 		sz := int64(r.Range(1, 5))
-		if !e.Do(&Op{Kind: OpAsk, App: app, Key: g.newKey(app), Res: res.R{"memory": sz, "vcore": sz}, Prio: int32(r.Range(0, 2)), AgeSec: int64(r.Range(40, 90)), PreemptOther: true, PreemptSelf: true}) {
+		if !e.Do(&Op{Kind: OpAsk, App: app, Key: g.newKey(app), Res: res.R{"memory": sz, "vcore": sz}, Prio: g.shiftPrio(int32(r.Range(0, 2))), AgeSec: int64(r.Range(40, 90)), PreemptOther: true, PreemptSelf: true}) {
 			return
 		}
 		e.Do(&Op{Kind: OpSched, N: 3})
